@@ -437,6 +437,7 @@ as numpy.loadtxt will not work as expected."""
             shape=self.shape,
             dtype=[(key, self.dtype) for key in self.keys],
             buffer=self.data,
+            strides=self.strides,
         )
 
     def isconstant(self) -> bool:
